@@ -28,8 +28,11 @@
 (*     real VerifySeal on the header sealed by the real Server.commit      *)
 (* Quorum = floor(0.685*T) in exact arithmetic (interpretation note in     *)
 (* DESIGN.md section 9).  Certificate rounds occur only in the traces of   *)
-(* the voter-level stage (driver votecert), which has no verifier: there   *)
-(* CommitVerifies is not evaluated (no "verifies" field).  A vote labelled *)
+(* the voter-level stages (driver votecert).  Its plain world has no        *)
+(* verifier: CommitVerifies is not evaluated there (no "verifies" field);  *)
+(* its BLS world records the verdict of Server.verifyVotes on the packed   *)
+(* precommit and certificate sets, and for every emitted vote whether a    *)
+(* peer's real voter accepts it (clause OwnVoteVerifiesAtPeer).  A vote labelled *)
 (* msgSame whose index is not the voter's (field as = "same") is dropped   *)
 (* by the voter and cached by nobody: it counts as a lost message.         *)
 (***************************************************************************)
@@ -48,7 +51,7 @@ Nil == "nil"
 EmptyF == [ii \in 1..MaxIdx |-> [k \in K3 |-> [s \in Peers |-> Nil]]]
 AsSets(f) == [ii \in 1..MaxIdx |-> [k \in K3 |-> [s \in Peers |-> IF f[ii][k][s] = Nil THEN {} ELSE {f[ii][k][s]}]]]
 ZeroFired == [PrecommitOnlyAfterPrevoteQuorum |-> 0, CertOnlyAfterPrecommitQuorum |-> 0, CommitOnlyAfterQuorums |-> 0,
-              EquivocatorWeightless |-> 0, CommitVerifies |-> 0]
+              EquivocatorWeightless |-> 0, CommitVerifies |-> 0, OwnVoteVerifiesAtPeer |-> 0]
 Init == /\ l = 1 /\ cur = 1 /\ wts = <<0, 0, 0, 0, 0>> /\ tot = 0 /\ cert = FALSE /\ dl = Empty /\ dln = Empty /\ df = EmptyF
         /\ ownv = {} /\ viol = {} /\ fired = ZeroFired
 
@@ -94,15 +97,23 @@ Step ==
                                         DQ(fs, own, x.i, "Precommit", x.b) >= Q("Precommit")) } : x \in cts }
           v2 == UNION { { <<"CommitOnlyAfterQuorums", dd, l>> : dd \in Disc(QP(d, c), QP(dn, c), QP(fs, c)) } : c \in cms }
           v3 == UNION { { <<"EquivocatorWeightless", dd, l>> : dd \in Disc(PK(d, c), PK(dn, c), PK(fs, c)) } : c \in cms }
-          v4 == { <<"CommitVerifies", IF c.sealed THEN {"verifier_rejects"} ELSE {"not_sealed"}, l>> :
-                     c \in { x \in cms : "verifies" \in DOMAIN x /\ ~x.verifies } }
+          \* the verifier's verdict; when the recomputed quorums fail too, their discriminator is attached (known findings)
+          v4 == UNION { { <<"CommitVerifies", (IF c.sealed THEN {"verifier_rejects"} ELSE {"not_sealed"}) \cup dd, l>> :
+                            dd \in (IF QP(d, c) THEN {{}} ELSE Disc(QP(d, c), QP(dn, c), QP(fs, c))) } :
+                        c \in { x \in cms : "verifies" \in DOMAIN x /\ ~x.verifies } }
+          \* BLS stage: every vote the node emits is accepted by a peer's real voter (signer recovered through the look-back
+          \* set of the vote's kind, signature, credential) -- a vote nobody can attribute to the node cannot be part of a
+          \* vote set "that every verifier accepts"
+          pvs == { x \in SetOf(e.sent) : "peer" \in DOMAIN x }
+          v6 == { <<"OwnVoteVerifiesAtPeer", {x.k}, l>> : x \in { y \in pvs : ~y.peer } }
       IN /\ dl' = d /\ dln' = dn /\ df' = f /\ ownv' = own /\ cert' = isCert
-         /\ viol' = viol \cup v1 \cup v2 \cup v3 \cup v4 \cup v5
+         /\ viol' = viol \cup v1 \cup v2 \cup v3 \cup v4 \cup v5 \cup v6
          /\ fired' = [fired EXCEPT !.PrecommitOnlyAfterPrevoteQuorum = @ + Cardinality(pcs),
                                    !.CertOnlyAfterPrecommitQuorum = @ + Cardinality(cts),
                                    !.CommitOnlyAfterQuorums = @ + Cardinality(cms),
                                    !.EquivocatorWeightless = @ + Cardinality(cms),
-                                   !.CommitVerifies = @ + Cardinality({ x \in cms : "verifies" \in DOMAIN x })]
+                                   !.CommitVerifies = @ + Cardinality({ x \in cms : "verifies" \in DOMAIN x }),
+                                   !.OwnVoteVerifiesAtPeer = @ + Cardinality(pvs)]
          /\ cur' = e.obs.i
          /\ IF e.ev = "Cfg" THEN wts' = e.w /\ tot' = e.T ELSE UNCHANGED <<wts, tot>>
 
